@@ -222,7 +222,7 @@ func c03Run(c *core.Ctx) {
 			} else if acc && c.WantSample() && idx%211 == 0 {
 				c.Sample(map[string]interface{}{"family": "accepted schema mutant", "seed": it.Name, "mutation": note})
 			}
-			return idx%64 != 0 || !c.TimeUp()
+			return !c.TimeUpEvery(4)
 		}
 		positions := gen.Positions(doc)
 		for _, p := range positions {
@@ -746,7 +746,7 @@ func c03Run(c *core.Ctx) {
 			if sig != "" {
 				report(sig, detail, cs)
 			}
-			return idx%256 != 0 || !c.TimeUp()
+			return !c.TimeUpEvery(16)
 		}
 		toks := tokAlphabets[it.Format]
 		l := L
